@@ -102,11 +102,19 @@ def sqrtHyps (a b : E) : List (E × E) :=
     | .call1 .sqrt t => some (.mul s s, t)
     | _ => none
 
-/-- equal as rational functions modulo `sqrt t * sqrt t = t`, with a constant multiplier `±1` per hypothesis -/
+/-- `sqrt 0 = 0` as a rewrite -/
+def sqrtZero : E × E := (.call1 .sqrt (.lit 0 1), .lit 0 1)
+
+/-- equal as rational functions modulo `sqrt t * sqrt t = t`, with a constant multiplier `±1` per hypothesis; or the same
+    expression after identifying a pair of operands the path forces equal and reading `sqrt 0` as `0` (the guarded
+    `x == 0 ? 0 : x * rsqrt x`) -/
 def leafSqrt (path : Path) (a b : E) : Bool :=
   leafField path a b ||
   (let h := sqrtHyps a b
-   fracEqMod h (h.map fun _ => .lit 1 1) a b || fracEqMod h (h.map fun _ => .lit (-1) 1) a b)
+   fracEqMod h (h.map fun _ => .lit 1 1) a b || fracEqMod h (h.map fun _ => .lit (-1) 1) a b) ||
+  (eqCandsLin (normPath path)).any fun σ =>
+    identEq ((a.rewrite [σ]).rewrite [sqrtZero]) ((b.rewrite [σ]).rewrite [sqrtZero]) ||
+    identEq ((a.rewrite [(σ.2, σ.1)]).rewrite [sqrtZero]) ((b.rewrite [(σ.2, σ.1)]).rewrite [sqrtZero])
 
 def leafOf : Mode → Path → E → E → Bool
   | .ident => leafIdent
